@@ -14,8 +14,10 @@ NOT PROVED (stream `fix` only): `%` —
   C15_ufix64_mod : ∀ a b in range, UFix64Value.Mod a b = specFixMod .ufix64 a b
 (the generated definition goes through the checked Div, a truncation, the checked Mul and the checked
 Minus; the statement needs `tdiv (tdiv (a·s) b) s = tdiv a b` and the absence of intermediate overflow).
-Fix128 / UFix128 and multiplyDivide delegate to the external library onflow/fixed-point: no model here;
-the stream compares them with the same specification at scale 10^24.
+Fix128 / UFix128 and multiplyDivide (all four types) delegate to the external library onflow/fixed-point: no
+model here; the stream compares them with the same specification at scale 10^24, multiplyDivide with
+`specMulDiv` (exact `a·b/c` rounded by the requested rule) — the `C15_roundDiv_*` / `C15_mulDiv_spec`
+theorems below are about that specification only.
 -/
 import Verif.Proofs.FixArith
 set_option linter.unusedVariables false
@@ -116,6 +118,136 @@ theorem C15_spec_errors (T : FTy) (op : Op) (a b : Int) (e : NumErr) (h : specFi
     cases T <;> simp only [classify, inRange] at * <;> (repeat' split at h) <;> cases h <;>
       first | exact ⟨Or.inl rfl, by omega⟩ | exact ⟨Or.inr rfl, by omega⟩
 
+/-! ### `multiplyDivide`: the specification's rounding (`specMulDiv` / `roundDiv`)
+
+The computation itself is the external library's (`FMD`), compared with `specMulDiv` by the `fix` stream;
+these theorems are about the specification: each rule is what its name says. -/
+
+/-- `multiplyDivide`: when the divisor divides the numerator every rounding rule returns the exact quotient -/
+theorem C15_roundDiv_exact (r : Rounding) (n d : Int) (hd : d ≠ 0) (h : Int.tmod n d = 0) :
+    roundDiv r n d * d = n := by
+  have ⟨e, _, _, _, c⟩ := roundDiv_cases r n d hd
+  rcases c with c | c | c
+  · rw [c]; omega
+  · exact absurd h c.1
+  · exact absurd h c.1
+
+/-- every rule returns the truncated quotient or its neighbour away from zero: strictly less than one unit
+    from the exact value `n/d` -/
+theorem C15_roundDiv_within_unit (r : Rounding) (n d : Int) (hd : d ≠ 0) :
+    (roundDiv r n d * d - n).natAbs < d.natAbs := by
+  have ⟨e, l, s1, s2, c⟩ := roundDiv_cases r n d hd
+  rcases c with c | ⟨hr, sg, c⟩ | ⟨hr, sg, c⟩ <;> rw [c]
+  · omega
+  · rw [Int.add_mul]; omega
+  · rw [Int.sub_mul]; omega
+
+/-- `towardZero`: magnitude at most that of the exact value, same sign -/
+theorem C15_roundDiv_towardZero (n d : Int) (hd : d ≠ 0) :
+    (roundDiv .towardZero n d * d).natAbs ≤ n.natAbs ∧ (0 ≤ n → 0 ≤ roundDiv .towardZero n d * d) ∧
+    (n ≤ 0 → roundDiv .towardZero n d * d ≤ 0) := by
+  have ⟨e, l, s1, s2, _⟩ := roundDiv_cases .towardZero n d hd
+  have c : roundDiv .towardZero n d = Int.tdiv n d := by
+    simp only [roundDiv]; split <;> rfl
+  have f := tmod_facts n d
+  rw [c]; omega
+
+/-- `awayFromZero`: magnitude at least that of the exact value, same sign -/
+theorem C15_roundDiv_awayFromZero (n d : Int) (hd : d ≠ 0) :
+    n.natAbs ≤ (roundDiv .awayFromZero n d * d).natAbs ∧ (0 ≤ n → 0 ≤ roundDiv .awayFromZero n d * d) ∧
+    (n ≤ 0 → roundDiv .awayFromZero n d * d ≤ 0) := by
+  have ⟨e, l, s1, s2, c⟩ := roundDiv_cases .awayFromZero n d hd
+  by_cases hr : Int.tmod n d = 0
+  · have := C15_roundDiv_exact .awayFromZero n d hd hr; omega
+  · have c0 : roundDiv .awayFromZero n d ≠ Int.tdiv n d := by
+      simp only [roundDiv]; rw [if_neg hr]
+      have : Int.sign n * Int.sign d ≠ 0 := by
+        have hn : n ≠ 0 := by intro h0; apply hr; rw [h0]; exact Int.zero_tmod d
+        exact Int.mul_ne_zero (by simpa [Int.sign_eq_zero_iff_zero] using hn) (by simpa [Int.sign_eq_zero_iff_zero] using hd)
+      omega
+    rcases c with c | ⟨_, sg, c⟩ | ⟨_, sg, c⟩
+    · exact absurd c c0
+    · rw [c, Int.add_mul]; omega
+    · rw [c, Int.sub_mul]; omega
+
+/-- the two `nearest` rules: at most half a unit from the exact value -/
+theorem C15_roundDiv_nearest (r : Rounding) (hr : r = .nearestHalfAway ∨ r = .nearestHalfEven) (n d : Int) (hd : d ≠ 0) :
+    2 * (roundDiv r n d * d - n).natAbs ≤ d.natAbs := by
+  have ⟨e, l, s1, s2, _⟩ := roundDiv_cases r n d hd
+  by_cases h0 : Int.tmod n d = 0
+  · have := C15_roundDiv_exact r n d hd h0; omega
+  · have am := away_mul n d hd h0
+    simp only [roundDiv]; rw [if_neg h0]
+    rcases hr with hr | hr <;> subst hr <;> simp only <;> (repeat' split) <;>
+      omega   -- case split on `am`
+
+/-- on an exact tie (`2·|rem| = |d|`): half-away goes away from zero, half-even to the even neighbour -/
+theorem C15_roundDiv_ties (n d : Int) (hd : d ≠ 0) (ht : 2 * (Int.tmod n d).natAbs = d.natAbs) :
+    n.natAbs ≤ (roundDiv .nearestHalfAway n d * d).natAbs ∧ roundDiv .nearestHalfEven n d % 2 = 0 := by
+  have ⟨e, l, s1, s2, _⟩ := roundDiv_cases .nearestHalfAway n d hd
+  have h0 : Int.tmod n d ≠ 0 := by intro h; rw [h] at ht; simp at ht; omega
+  have am := away_mul n d hd h0
+  constructor
+  · simp only [roundDiv]; rw [if_neg h0, if_pos (by omega)]
+    rcases am with ⟨a1, a2, _⟩ | ⟨a1, a2, _⟩ <;> rw [a2] <;> omega
+  · simp only [roundDiv]; rw [if_neg h0, if_neg (by omega), if_neg (by omega)]
+    split
+    · assumption
+    · rcases am with ⟨_, _, a3⟩ | ⟨_, _, a3⟩ <;> rcases a3 with a3 | a3 <;> rw [a3] <;> omega
+
+/-- the specification of `multiplyDivide`: a result is a value of the type, less than one unit from the exact
+    `a·b/c` and equal to it when that is representable at the scale; it fails with division by zero exactly
+    for a zero divisor -/
+theorem C15_mulDiv_spec (T : FTy) (r : Rounding) (a b c : Int) :
+    (specMulDiv T r a b c = .error .divZero ↔ c = 0) ∧
+    (∀ v, specMulDiv T r a b c = .ok v →
+      c ≠ 0 ∧ inRange T.raw v ∧ (v * c - a * b).natAbs < c.natAbs ∧ (Int.tmod (a * b) c = 0 → v * c = a * b)) := by
+  unfold specMulDiv
+  by_cases hc : c = 0
+  · simp [hc]
+  · rw [if_neg hc]
+    have w := C15_roundDiv_within_unit r (a * b) c hc
+    have x := C15_roundDiv_exact r (a * b) c hc
+    constructor
+    · constructor
+      · intro h; exfalso
+        cases T <;> simp only [classify] at h <;> (repeat' split at h) <;> cases h
+      · intro h; exact absurd h hc
+    · intro v h
+      have hv : v = roundDiv r (a * b) c ∧ inRange T.raw v := by
+        cases T <;> simp only [classify, inRange] at * <;> (repeat' split at h) <;> cases h <;>
+          exact ⟨rfl, by omega⟩
+      obtain ⟨hv1, hv2⟩ := hv
+      subst hv1
+      exact ⟨hc, hv2, w, x⟩
+
+/-! ### Known finding: the external library's 128-bit division (`fixlib-div128-quotient-word-assumed-all-ones`)
+
+There is no model of `onflow/fixed-point`, so the witnesses are stated on the specification side: what the
+property requires for these inputs, and that they have the defect's input shape; the answers of the real
+code (stream `fix`, corpus `known-fixlib-div128.txt`, direct calls and scripts in both engines) are recorded
+beside them.  The 64-bit types divide with `math/bits.Div64` and are not affected (theorems above). -/
+
+/-- `425150218303.720500949735645943097918 / 51491298.867851349257578002779613` (UFix128): the quotient truncated
+    to 10^-24 ends in …134; Go returns …135 — not a truncation, the result is above the exact quotient -/
+theorem C15_div128_witness :
+    specFix .ufix128 .div 425150218303720500949735645943097918 51491298867851349257578002779613
+      = .ok 8256739054006725028805083134 ∧
+    div128SuspectLow (425150218303720500949735645943097918 * 1000000000000000000000000) 51491298867851349257578002779613 = true := by
+  decide
+
+/-- `multiplyDivide` with the second quotient word `2^64 − 2`: the specification has a value for each of the two
+    triples; Go returns 216800769254943718020007656257857578 for the first and panics inside the library
+    (an internal error in a script) for the second -/
+theorem C15_mulDiv128_witness :
+    specMulDiv .ufix128 .towardZero 16594690948024720233190508554001674 2374808617828556677249996877 115813274223307087035308
+      = .ok 340282366920938463444927863358058646552 ∧
+    div128SuspectHigh (16594690948024720233190508554001674 * 2374808617828556677249996877) 115813274223307087035308 = true ∧
+    specMulDiv .ufix128 .towardZero 39618721341428393984427811873 2108956849906300576999746314714 245543648099013626111
+      = .ok 340282366920938463444927863352782557116 ∧
+    div128SuspectHigh (39618721341428393984427811873 * 2108956849906300576999746314714) 245543648099013626111 = true := by
+  decide
+
 /-! ### Non-vacuity -/
 
 example : Fix64Value.Mul 150000000 150000000 = .ok 225000000 ∧ Fix64Value.Mul 1 1 = .ok 0 ∧ Fix64Value.Mul (-1) 99999999 = .ok 0 := by decide
@@ -124,5 +256,15 @@ example : Fix64Value.Mul 9223372036854775807 200000000 = .error .overflow ∧ Fi
 example : Fix64Value.Div (-9223372036854775808) (-100000000) = .error .overflow ∧ Fix64Value.Div 5 0 = .error .divZero := by decide
 example : UFix64Value.Minus 1 2 = .error .underflow ∧ UFix64Value.Div 18446744073709551615 1 = .error .overflow := by decide
 example : inRange (.uint 64) 18446744073709551615 ∧ UFix64Value.Mul 18446744073709551615 100000000 = .ok 18446744073709551615 := by decide
+
+-- multiplyDivide: 2.5 and 3.5 under the four rules; negative; the divisor 1.0 of a 128-bit type keeps the rule
+example : roundDiv .towardZero 5 2 = 2 ∧ roundDiv .awayFromZero 5 2 = 3 ∧ roundDiv .nearestHalfAway 5 2 = 3 ∧
+    roundDiv .nearestHalfEven 5 2 = 2 ∧ roundDiv .nearestHalfEven 7 2 = 4 ∧ roundDiv .nearestHalfAway (-5) 2 = -3 ∧
+    roundDiv .nearestHalfEven (-5) 2 = -2 ∧ roundDiv .awayFromZero 1 (-3) = -1 ∧ roundDiv .nearestHalfAway 1 3 = 0 := by decide
+example : specMulDiv .ufix128 .awayFromZero 1500000000000000000000000 1 1000000000000000000000000 = .ok 2 ∧
+    specMulDiv .ufix128 .towardZero 1500000000000000000000000 1 1000000000000000000000000 = .ok 1 ∧
+    specMulDiv .fix64 .awayFromZero 9223372036854775807 3 2 = .error .overflow ∧
+    specMulDiv .fix64 .nearestHalfAway (-9223372036854775808) 100000001 100000000 = .error .underflow ∧
+    specMulDiv .ufix64 .nearestHalfEven 0 0 0 = .error .divZero := by decide
 
 end Verif.Properties.C15
